@@ -21,17 +21,19 @@ EXTENDS Integers, Sequences, FiniteSets, TLC
 CONSTANTS NRows,         \* rows of the frame
           KeyVals,       \* values of the first partition column (NULLK = missing)
           KeyVals2,      \* values of the second partition column ({NoCol} = only one column)
-          Offsets        \* set of row-group offset lists (sequences of 0-based starts)
+          Offsets,       \* set of row-group offset lists (sequences of 0-based starts)
+          IndexKinds     \* row labels of the frame: "range" | "repeated" (labels occur twice) | "shuffled"; with
+                         \* write_index=False they are not stored and must not influence which row goes where
 
 NULLK == -1
 NoCol == -9
 
 VARIABLES frame,   \* row -> [k1, k2]
-          offs, pc, files, chunk
-vars == <<frame, offs, pc, files, chunk>>
+          offs, pc, files, chunk, ixk
+vars == <<frame, offs, pc, files, chunk, ixk>>
 
 Frames == [1..NRows -> [k1 : KeyVals, k2 : KeyVals2]]
-Init == /\ frame \in Frames /\ offs \in Offsets /\ pc = "chunks" /\ files = {} /\ chunk = 1
+Init == /\ frame \in Frames /\ offs \in Offsets /\ pc = "chunks" /\ files = {} /\ chunk = 1 /\ ixk \in IndexKinds
 
 RowsOfChunk(c) == LET a == offs[c] + 1
                       b == IF c < Len(offs) THEN offs[c + 1] ELSE NRows
@@ -45,8 +47,8 @@ WriteChunk ==
   /\ LET rows == {r \in RowsOfChunk(chunk) : ~HasNull(r)}
          keys == {KeyOf(r) : r \in rows}
      IN files' = files \cup {[key |-> k, part |-> chunk - 1, rows |-> {r \in rows : KeyOf(r) = k}] : k \in keys}
-  /\ chunk' = chunk + 1 /\ UNCHANGED <<frame, offs, pc>>
-Finish == pc = "chunks" /\ chunk > Len(offs) /\ pc' = "done" /\ UNCHANGED <<frame, offs, files, chunk>>
+  /\ chunk' = chunk + 1 /\ UNCHANGED <<frame, offs, pc, ixk>>
+Finish == pc = "chunks" /\ chunk > Len(offs) /\ pc' = "done" /\ UNCHANGED <<frame, offs, files, chunk, ixk>>
 Next == WriteChunk \/ Finish
 Spec == Init /\ [][Next]_vars
 
